@@ -191,7 +191,7 @@ Boundary(x) ==
 
 \* ---------------------------------------------------------------- the table handed to the harness
 \* (grid family: every entry of cells is the sorted sequence of admissible values instead of one value)
-GridStrictTable(x) ==
+GridTable(x) ==
     LET ks == SetToSortSeq(LonPts(x), <)
         js == SetToSortSeq(LatPts(x), <)
         cf == TLCEval([k \in LonPts(x) |-> AdmCols(x.v, x.nx, x.g, k)])
